@@ -1,5 +1,5 @@
 SPECIFICATION Spec
-CONSTANTS MaxN = 5 MaxV = 3 AnyValues = FALSE AsIs_SortedReturn = FALSE Mut_WrongDirection = FALSE Mut_TieJitter = FALSE Thorough = FALSE
+CONSTANTS MaxN = 5 MaxV = 2 AnyValues = FALSE AsIs_SortedReturn = FALSE Mut_WrongDirection = FALSE Mut_TieJitter = FALSE Thorough = FALSE
 INVARIANT Inv_OnePerPsm
 INVARIANT Inv_InRange
 INVARIANT Inv_Monotone
